@@ -13,5 +13,5 @@ def run(ctx):
     import sys
     sys.path.insert(0, os.path.join(os.path.dirname(__file__), "..", "C06x"))
     import exen      # T-tie: Framer.ExEn / Uncommon translated from the source on every run (props/C06x)
-    kprops.kernel_check(ctx, "C06", runs=RUNS, extra_checks=[exen.check_exen], preds=['C06', 'C05'], corpus=corpus,
+    kprops.kernel_check(ctx, "C06", runs=RUNS, extra_checks=[exen.check_exen], preds=['C06', 'C06t', 'C05'], corpus=corpus,
                         rule="random kernel programs (frame forests, transitions to self/ancestor/descendant/other subtree, plain and conditional auxiliaries, stop/abort, crashes) with a recorder first in every frame's enter and exit context; traces compared with the Coq model; implementation-only statement: per frame enter/exit alternate starting with enter, and every entered frame of a scheduled framer is exited when a run ends without a crash. Two corpus programs replay the open findings. Non-trivial = outline change and > 6 events")
